@@ -546,7 +546,10 @@ func hostFor(m *MsgSpec, c *IDPCfg) string {
 func (w *World) requestHeaders(m *MsgSpec) http.Header {
 	h := http.Header{}
 	if m.Forwarded != "" {
-		h.Set("Forwarded", m.Forwarded)
+		// several header lines (each proxy on the way appends its own): separated by a newline in the plan
+		for _, line := range strings.Split(m.Forwarded, "\n") {
+			h.Add("Forwarded", line)
+		}
 	}
 	if m.XFHeader != "" {
 		for i, n := range w.cfg.IDP.Headers {
@@ -798,7 +801,23 @@ func BuildRequest(w *World, t *Task, m *MsgSpec) (*http.Request, *Sent, error) {
 		req.Header[k] = v
 	}
 	if s.ContentType != "" {
-		req.Header.Set("Content-Type", s.ContentType)
+		ct := s.ContentType
+		if m.Kind != "raw" {
+			// media types are case-insensitive and may carry parameters
+			switch {
+			case ct == "application/x-www-form-urlencoded":
+				ct = []string{ct, ct + "; charset=UTF-8", "Application/X-WWW-Form-URLEncoded", ct + ";charset=utf-8"}[mod(m.Style.CT, 4)]
+			case strings.HasPrefix(ct, "text/xml"):
+				ct = []string{"text/xml; charset=utf-8", "text/xml", "Text/XML; Charset=UTF-8", `text/xml;charset="UTF-8"`}[mod(m.Style.CT, 4)]
+			}
+			if m.Style.CT != 0 {
+				w.probe("request_content_type_variant")
+			}
+		}
+		req.Header.Set("Content-Type", ct)
+	}
+	if m.Kind == "attrq" && m.Style.Optional&optConsent != 0 {
+		req.Header.Set("SOAPAction", `"http://www.oasis-open.org/committees/security"`)
 	}
 	if sb != nil {
 		req.ContentLength = int64(len(s.Body))
